@@ -1,239 +1,236 @@
 /-
-Lemmas about the scanner model of `fai.NewIndex` (Model/FaiScan.lean): the tokens of `split` over every
-delivery are `lines data`; `Hts.Model.Fai.scan` is `stepAll` over `lines`.
+C19 helper lemmas, part 1: bytes, TrimSpace, the scanner's tokens, and `scan` as a fold of `step` over lines.
 -/
-import Hts.Model.FaiScan
+import Hts.Model.Fai
+import Hts.Spec.Fasta
 set_option linter.unusedVariables false
 set_option linter.unusedSimpArgs false
-namespace Hts.Lemmas.FaiScan
+namespace Hts.Lemmas.Fai
 open Hts.Model.Fai
+open Hts.Spec.Fasta (isGraphic isBase isDescByte isBlankByte)
 
-/-- shape of a byte string relative to its first LF -/
-theorem tw_dw (bs : Bytes) :
-    (bs.dropWhile notLF = [] ∧ bs.takeWhile notLF = bs ∧ ∀ x ∈ bs, notLF x = true) ∨
-    (∃ nl rest, bs.dropWhile notLF = nl :: rest ∧ notLF nl = false ∧
-       bs = bs.takeWhile notLF ++ nl :: rest ∧ ∀ x ∈ bs.takeWhile notLF, notLF x = true) := by
-  induction bs with
-  | nil => left; simp
-  | cons b bs ih =>
-    by_cases hb : notLF b = true
-    · rcases ih with ⟨h1, h2, h3⟩ | ⟨nl, rest, h1, h2, h3, h4⟩
-      · left
-        simp [List.dropWhile_cons, List.takeWhile_cons, hb, h1, h2]
-        exact h3
-      · right
-        refine ⟨nl, rest, ?_, h2, ?_, ?_⟩
-        · simp [List.dropWhile_cons, hb, h1]
-        · simp only [List.takeWhile_cons, hb, if_true, List.cons_append]
-          exact congrArg _ h3
-        · simp only [List.takeWhile_cons, hb, if_true, List.mem_cons]
-          rintro x (rfl | hx)
-          · exact hb
-          · exact h4 x hx
-    · right
-      have hb' : notLF b = false := by simpa using hb
-      exact ⟨b, bs, by simp [List.dropWhile_cons, hb'], hb', by simp [List.takeWhile_cons, hb'],
-        by simp [List.takeWhile_cons, hb']⟩
+/-! ### byte classes -/
 
-theorem lines_terminated (l : Bytes) (nl : UInt8) (rest : Bytes) (hl : ∀ x ∈ l, notLF x = true)
-    (hnl : notLF nl = false) : lines (l ++ nl :: rest) = (l ++ [nl]) :: lines rest := by
+theorem space_of_blank {b : UInt8} (h : isBlankByte b = true) : isSpace b = true := by
+  simp only [isBlankByte, isSpace, decide_eq_true_eq] at *; omega
+
+theorem notLF_of_blank {b : UInt8} (h : isBlankByte b = true) : notLF b = true := by
+  simp only [isBlankByte, notLF, decide_eq_true_eq] at *; omega
+
+theorem not_space_of_graphic {b : UInt8} (h : isGraphic b = true) : isSpace b = false := by
+  simp only [isGraphic, isSpace, decide_eq_true_eq, decide_eq_false_iff_not] at *; omega
+
+theorem notLF_of_graphic {b : UInt8} (h : isGraphic b = true) : notLF b = true := by
+  simp only [isGraphic, notLF, decide_eq_true_eq] at *; omega
+
+theorem notSpTab_of_graphic {b : UInt8} (h : isGraphic b = true) : notSpTab b = true := by
+  simp only [isGraphic, notSpTab, decide_eq_true_eq] at *; omega
+
+theorem graphic_of_base {b : UInt8} (h : isBase b = true) : isGraphic b = true := by
+  simp only [isBase, Bool.and_eq_true] at h; exact h.1
+
+theorem ne_GT_of_base {b : UInt8} (h : isBase b = true) : b ≠ GT := by
+  intro hb
+  simp only [isBase, Bool.and_eq_true, decide_eq_true_eq] at h
+  apply h.2; rw [hb]; rfl
+
+theorem notLF_of_desc {b : UInt8} (h : isDescByte b = true) : notLF b = true := by
+  simp only [isDescByte, notLF, decide_eq_true_eq] at *; omega
+
+theorem GT_graphic : isGraphic GT = true := by decide
+
+/-! ### TrimSpace -/
+
+theorem dropWhile_space_cons {x : UInt8} (l : Bytes) (h : isSpace x = false) :
+    (x :: l).dropWhile isSpace = x :: l := by
+  simp [List.dropWhile, h]
+
+theorem dropWhile_all_space (l : Bytes) (h : ∀ b ∈ l, isSpace b = true) : l.dropWhile isSpace = [] := by
   induction l with
-  | nil => simp [lines, hnl]
-  | cons a l ih =>
-    have ha : notLF a = true := hl a (by simp)
-    have := ih (fun x hx => hl x (by simp [hx]))
-    simp [lines, ha, this]
+  | nil => rfl
+  | cons x xs ih =>
+    simp only [List.dropWhile, h x (List.mem_cons_self)]
+    exact ih (fun b hb => h b (List.mem_cons_of_mem _ hb))
 
-theorem lines_unterminated (l : Bytes) (hne : l ≠ []) (hl : ∀ x ∈ l, notLF x = true) : lines l = [l] := by
+theorem trimRight_append_space (g t : Bytes) (h : ∀ b ∈ t, isSpace b = true) :
+    trimRight (g ++ t) = trimRight g := by
+  unfold trimRight
+  rw [List.reverse_append]
+  congr 1
+  have : ∀ (a b : Bytes), (∀ x ∈ a, isSpace x = true) → (a ++ b).dropWhile isSpace = b.dropWhile isSpace := by
+    intro a b ha
+    induction a with
+    | nil => rfl
+    | cons x xs ih =>
+      simp only [List.cons_append, List.dropWhile, ha x List.mem_cons_self]
+      exact ih (fun y hy => ha y (List.mem_cons_of_mem _ hy))
+  exact this _ _ (fun x hx => h x (List.mem_reverse.mp hx))
+
+theorem trimRight_snoc (g : Bytes) (x : UInt8) (h : isSpace x = false) : trimRight (g ++ [x]) = g ++ [x] := by
+  unfold trimRight
+  rw [List.reverse_append]
+  simp [List.dropWhile, h]
+
+theorem trimSpace_all_space (l : Bytes) (h : ∀ b ∈ l, isSpace b = true) : trimSpace l = [] := by
+  unfold trimSpace; rw [dropWhile_all_space l h]; rfl
+
+/-- a block of non-space bytes followed by white space trims to the block -/
+theorem trimSpace_block (g t : Bytes) (hg : ∀ b ∈ g, isSpace b = false) (ht : ∀ b ∈ t, isSpace b = true) :
+    trimSpace (g ++ t) = g := by
+  cases g with
+  | nil => simpa using trimSpace_all_space t ht
+  | cons x xs =>
+    unfold trimSpace
+    rw [List.cons_append, dropWhile_space_cons _ (hg x List.mem_cons_self), ← List.cons_append,
+      trimRight_append_space _ _ ht]
+    -- x :: xs ends with a non-space byte
+    have hne : x :: xs ≠ [] := by simp
+    obtain ⟨ys, y, hy⟩ : ∃ ys y, x :: xs = ys ++ [y] := by
+      refine ⟨(x :: xs).dropLast, (x :: xs).getLast hne, ?_⟩
+      exact (List.dropLast_concat_getLast hne).symm
+    rw [hy]
+    apply trimRight_snoc
+    apply hg; rw [hy]; simp
+
+/-! ### scanner tokens -/
+
+theorem takeWhile_append_stop (l rest : Bytes) (nl : UInt8) (hl : ∀ b ∈ l, notLF b = true) (hnl : notLF nl = false) :
+    (l ++ nl :: rest).takeWhile notLF = l ∧ (l ++ nl :: rest).dropWhile notLF = nl :: rest := by
   induction l with
+  | nil => simp [List.takeWhile, List.dropWhile, hnl]
+  | cons x xs ih =>
+    have hx := hl x List.mem_cons_self
+    have := ih (fun b hb => hl b (List.mem_cons_of_mem _ hb))
+    simp [List.takeWhile, List.dropWhile, hx, this.1, this.2]
+
+theorem takeLine_terminated (l rest : Bytes) (nl : UInt8) (hl : ∀ b ∈ l, notLF b = true) (hnl : notLF nl = false) :
+    takeLine (l ++ nl :: rest) = (l ++ [nl], rest) := by
+  unfold takeLine
+  have := takeWhile_append_stop l rest nl hl hnl
+  rw [this.2, this.1]
+
+theorem takeLine_unterminated (l : Bytes) (hl : ∀ b ∈ l, notLF b = true) : takeLine l = (l, []) := by
+  unfold takeLine
+  have h1 : l.dropWhile notLF = [] := by
+    induction l with
+    | nil => rfl
+    | cons x xs ih =>
+      simp only [List.dropWhile, hl x List.mem_cons_self]
+      exact ih (fun b hb => hl b (List.mem_cons_of_mem _ hb))
+  have h2 : l.takeWhile notLF = l := by
+    induction l with
+    | nil => rfl
+    | cons x xs ih =>
+      simp only [List.takeWhile, hl x List.mem_cons_self]
+      rw [ih (fun b hb => hl b (List.mem_cons_of_mem _ hb))]
+      simp only [List.dropWhile, hl x List.mem_cons_self] at h1
+      exact h1
+  rw [h1, h2]
+
+theorem notLF_LF : notLF Hts.Spec.Fasta.LF = false := by decide
+
+/-! ### `scan` is `steps` over the lines -/
+
+/-- `step` folded over a list of tokens -/
+def steps (st : ScanState) : List Bytes → Except IdxErr ScanState
+  | [] => .ok st
+  | l :: ls =>
+    match step st l with
+    | .error e => .error e
+    | .ok st' => steps st' ls
+
+theorem steps_append (st : ScanState) (a b : List Bytes) :
+    steps st (a ++ b) = match steps st a with
+      | .error e => .error e
+      | .ok st' => steps st' b := by
+  induction a generalizing st with
+  | nil => rfl
+  | cons l ls ih =>
+    simp only [List.cons_append, steps]
+    cases step st l with
+    | error e => rfl
+    | ok st' => exact ih st'
+
+/-- a token ending in LF -/
+def Term (l : Bytes) : Prop := ∃ c, (∀ b ∈ c, notLF b = true) ∧ l = c ++ [Hts.Spec.Fasta.LF]
+
+/-- a non-empty last token without LF -/
+def Unterm (l : Bytes) : Prop := l ≠ [] ∧ ∀ b ∈ l, notLF b = true
+
+theorem scan_nil (st : ScanState) : scan st [] = .ok st := by
+  rw [scan]
+
+theorem scan_term (st : ScanState) (l rest : Bytes) (h : Term l) :
+    scan st (l ++ rest) = match step st l with
+      | .error e => .error e
+      | .ok st' => scan st' rest := by
+  obtain ⟨c, hc, rfl⟩ := h
+  have htl : takeLine (c ++ Hts.Spec.Fasta.LF :: rest) = (c ++ [Hts.Spec.Fasta.LF], rest) :=
+    takeLine_terminated c rest _ hc notLF_LF
+  have hne : c ++ [Hts.Spec.Fasta.LF] ++ rest = c ++ Hts.Spec.Fasta.LF :: rest := by simp
+  rw [hne]
+  cases hcr : c ++ Hts.Spec.Fasta.LF :: rest with
+  | nil => simp at hcr
+  | cons x xs =>
+    rw [scan, ← hcr, htl]
+    rfl
+
+theorem scan_unterm (st : ScanState) (l : Bytes) (h : Unterm l) :
+    scan st l = step st l := by
+  obtain ⟨hne, hl⟩ := h
+  have htl := takeLine_unterminated l hl
+  cases l with
   | nil => exact absurd rfl hne
-  | cons a l ih =>
-    have ha : notLF a = true := hl a (by simp)
-    by_cases hl0 : l = []
-    · subst hl0; simp [lines, ha]
-    · have := ih hl0 (fun x hx => hl x (by simp [hx]))
-      simp [lines, ha, this]
+  | cons x xs =>
+    rw [scan, htl]
+    cases step st (x :: xs) with
+    | error e => rfl
+    | ok st' => simp only [scan_nil]
 
-theorem lines_append_terminated (l : Bytes) (nl : UInt8) (rest : Bytes) (hl : ∀ x ∈ l, notLF x = true)
-    (hnl : notLF nl = false) (more : Bytes) :
-    lines (l ++ nl :: rest ++ more) = (l ++ [nl]) :: lines (rest ++ more) := by
-  have := lines_terminated l nl (rest ++ more) hl hnl
-  simpa using this
+/-- all tokens terminated -/
+theorem scan_lines (st : ScanState) (ls : List Bytes) (rest : Bytes) (h : ∀ l ∈ ls, Term l) :
+    scan st (ls.flatten ++ rest) = match steps st ls with
+      | .error e => .error e
+      | .ok st' => scan st' rest := by
+  induction ls generalizing st with
+  | nil => simp [steps]
+  | cons l ls ih =>
+    simp only [List.flatten_cons, List.append_assoc, steps]
+    rw [scan_term st l _ (h l List.mem_cons_self)]
+    cases step st l with
+    | error e => rfl
+    | ok st' => exact ih st' (fun x hx => h x (List.mem_cons_of_mem _ hx))
 
-/-! ### split -/
+/-- all tokens terminated, except possibly the last one -/
+def LinesOK : List Bytes → Prop
+  | [] => True
+  | [l] => Term l ∨ Unterm l
+  | l :: l' :: ls => Term l ∧ LinesOK (l' :: ls)
 
-theorem indexLF_none (bs : Bytes) (h : bs.dropWhile notLF = []) (h2 : bs.takeWhile notLF = bs) :
-    indexLF bs = none := by
-  simp [indexLF, h2]
-
-theorem indexLF_some (bs : Bytes) (nl : UInt8) (rest : Bytes)
-    (h3 : bs = bs.takeWhile notLF ++ nl :: rest) :
-    indexLF bs = some (bs.takeWhile notLF).length := by
-  have : (bs.takeWhile notLF).length < bs.length := by
-    have := congrArg List.length h3
-    simp at this; omega
-  simp [indexLF, this]
-
-theorem take_drop_at (l : Bytes) (nl : UInt8) (rest : Bytes) :
-    (l ++ nl :: rest).take (l.length + 1) = l ++ [nl] ∧ (l ++ nl :: rest).drop (l.length + 1) = rest := by
-  constructor
-  · rw [show l ++ nl :: rest = (l ++ [nl]) ++ rest by simp]
-    rw [List.take_append_of_le_length (by simp)]
-    rw [List.take_of_length_le (by simp)]
-  · rw [show l ++ nl :: rest = (l ++ [nl]) ++ rest by simp]
-    rw [List.drop_append_of_le_length (by simp)]
-    rw [List.drop_of_length_le (by simp)]
-    simp
-
-/-- split on a buffer that contains an LF: the first line, whatever `atEOF`. -/
-theorem split_line (bs : Bytes) (nl : UInt8) (rest : Bytes) (e : Bool)
-    (h3 : bs = bs.takeWhile notLF ++ nl :: rest) :
-    split bs e = ((bs.takeWhile notLF).length + 1, some (bs.takeWhile notLF ++ [nl])) ∧
-    bs.drop ((bs.takeWhile notLF).length + 1) = rest := by
-  have hne : bs.isEmpty = false := by
-    cases bs with
-    | nil => simp at h3
-    | cons _ _ => rfl
-  have hi := indexLF_some bs nl rest h3
-  have ht := take_drop_at (bs.takeWhile notLF) nl rest
-  rw [← h3] at ht
-  constructor
-  · simp only [split, hne, Bool.and_false, hi]
-    simp [ht.1]
-  · exact ht.2
-
-theorem split_noLF_false (bs : Bytes) (h : bs.dropWhile notLF = []) (h2 : bs.takeWhile notLF = bs) :
-    split bs false = (0, none) := by
-  simp [split, indexLF_none bs h h2]
-
-theorem split_noLF_true (bs : Bytes) (hne : bs ≠ []) (h : bs.dropWhile notLF = [])
-    (h2 : bs.takeWhile notLF = bs) : split bs true = (bs.length, some bs) := by
-  have : bs.isEmpty = false := by cases bs <;> simp_all
-  simp [split, indexLF_none bs h h2, this]
-
-/-! ### drain -/
-
-/-- After EOF: the buffered bytes come out as `lines buf`. -/
-theorem drainF_true (fuel : Nat) : ∀ (buf : Bytes), buf.length < fuel →
-    (drainF split true fuel buf).1 = lines buf := by
-  induction fuel with
-  | zero => intro buf h; omega
-  | succ fuel ih =>
-    intro buf hlen
-    by_cases hb : buf = []
-    · subst hb; simp [drainF, split, lines]
-    · rcases tw_dw buf with ⟨h1, h2, h3⟩ | ⟨nl, rest, h1, h2, h3, h4⟩
-      · have hs := split_noLF_true buf hb h1 h2
-        have hpos : 0 < buf.length := List.length_pos_iff.mpr hb
-        have hf : (drainF split true fuel []).1 = [] := by
-          cases fuel with
-          | zero => rfl
-          | succ n => simp [drainF, split]
-        simp [drainF, hs, hpos, hf, lines_unterminated buf hb h3]
-      · obtain ⟨hs, hd⟩ := split_line buf nl rest true h3
-        have hlen' : (buf.takeWhile notLF).length + 1 ≤ buf.length := by
-          have := congrArg List.length h3
-          simp at this; omega
-        have hrest : rest.length < fuel := by
-          have := congrArg List.length h3
-          simp at this; omega
-        have hl : lines buf = (buf.takeWhile notLF ++ [nl]) :: lines rest := by
-          conv => lhs; rw [h3]
-          exact lines_terminated _ nl rest h4 h2
-        simp only [drainF, hs, hd, hlen', ih rest hrest, hl]
-        simp
-
-/-- Before EOF: the complete lines come out, the LF-free rest stays; together with whatever arrives later
-this is `lines` of the whole. -/
-theorem drainF_false (fuel : Nat) : ∀ (buf more : Bytes), buf.length < fuel →
-    (drainF split false fuel buf).1 ++ lines ((drainF split false fuel buf).2 ++ more) = lines (buf ++ more) := by
-  induction fuel with
-  | zero => intro buf more h; omega
-  | succ fuel ih =>
-    intro buf more hlen
-    by_cases hb : buf = []
-    · subst hb; simp [drainF]
-    · have hne : buf.isEmpty = false := by cases buf <;> simp_all
-      rcases tw_dw buf with ⟨h1, h2, h3⟩ | ⟨nl, rest, h1, h2, h3, h4⟩
-      · have hs := split_noLF_false buf h1 h2
-        simp [drainF, hs, hne]
-      · obtain ⟨hs, hd⟩ := split_line buf nl rest false h3
-        have hlen' : (buf.takeWhile notLF).length + 1 ≤ buf.length := by
-          have := congrArg List.length h3
-          simp at this; omega
-        have hrest : rest.length < fuel := by
-          have := congrArg List.length h3
-          simp at this; omega
-        have hl : lines (buf ++ more) = (buf.takeWhile notLF ++ [nl]) :: lines (rest ++ more) := by
-          conv => lhs; rw [h3]
-          exact lines_append_terminated _ nl rest h4 h2 more
-        simp only [drainF, hs, hd, hlen', hne, hl]
-        simp [ih rest more hrest]
-
-theorem drain_true (buf : Bytes) : (drain split true buf).1 = lines buf :=
-  drainF_true _ buf (by omega)
-
-theorem drain_false (buf more : Bytes) :
-    (drain split false buf).1 ++ lines ((drain split false buf).2 ++ more) = lines (buf ++ more) :=
-  drainF_false _ buf more (by omega)
-
-/-! ### the whole scanner -/
-
-theorem scanFrom_split (e : Bool) : ∀ (chunks : List Bytes) (buf : Bytes),
-    scanFrom split e chunks buf = lines (buf ++ chunks.flatten) := by
-  intro chunks
-  induction chunks with
-  | nil => intro buf; simp [scanFrom, drain_true]
-  | cons c cs ih =>
-    intro buf
-    by_cases h : (cs.isEmpty && e) = true
-    · have hcs : cs = [] := by
-        cases cs <;> simp_all
-      subst hcs
-      have he : e = true := by simpa using h
-      subst he
-      simp [scanFrom, drain_true]
-    · simp only [scanFrom, h]
-      rw [ih]
-      have := drain_false (buf ++ c) cs.flatten
-      simpa using this
-
-/-! ### the existing NewIndex model is `stepAll` over `lines` -/
-
-theorem lines_takeLine (bs : Bytes) (hne : bs ≠ []) :
-    lines bs = (takeLine bs).1 :: lines (takeLine bs).2 := by
-  rcases tw_dw bs with ⟨h1, h2, h3⟩ | ⟨nl, rest, h1, h2, h3, h4⟩
-  · simp [takeLine, h1, h2, lines_unterminated bs hne h3, lines]
-  · have hl : lines bs = (bs.takeWhile notLF ++ [nl]) :: lines rest := by
-      conv => lhs; rw [h3]
-      exact lines_terminated _ nl rest h4 h2
-    simp [takeLine, h1, hl]
-
-theorem scan_eq_stepAll : ∀ (n : Nat) (bs : Bytes) (st : ScanState), bs.length ≤ n →
-    scan st bs = stepAll st (lines bs) := by
-  intro n
-  induction n with
-  | zero =>
-    intro bs st h
-    have : bs = [] := List.length_eq_zero_iff.mp (by omega)
-    subst this; simp [scan, lines, stepAll]
-  | succ n ih =>
-    intro bs st h
-    cases bs with
-    | nil => simp [scan, lines, stepAll]
-    | cons b bs' =>
-      rw [lines_takeLine (b :: bs') (by simp), scan, stepAll]
-      cases hstep : step st (takeLine (b :: bs')).1 with
+theorem scan_eq_steps (st : ScanState) (ls : List Bytes) (h : LinesOK ls) :
+    scan st ls.flatten = steps st ls := by
+  induction ls generalizing st with
+  | nil => simp [steps, scan_nil]
+  | cons l ls ih =>
+    cases ls with
+    | nil =>
+      simp only [List.flatten_cons, List.flatten_nil, List.append_nil, steps]
+      rcases h with h | h
+      · have := scan_term st l [] h
+        rw [List.append_nil] at this
+        rw [this]
+        cases step st l with
+        | error e => rfl
+        | ok st' => simp [scan_nil]
+      · rw [scan_unterm st l h]
+        cases step st l with
+        | error e => rfl
+        | ok st' => rfl
+    | cons l' ls' =>
+      rw [List.flatten_cons, scan_term st l _ h.1]
+      simp only [steps]
+      cases step st l with
       | error e => rfl
-      | ok st' =>
-        simp only []
-        apply ih
-        have := takeLine_snd_length_lt b bs'
-        simp at this h; omega
+      | ok st' => exact ih st' h.2
 
-theorem newIndex_eq_tokens (fasta : Bytes) : newIndex fasta = newIndexTokens (lines fasta) := by
-  unfold newIndex newIndexTokens
-  rw [scan_eq_stepAll fasta.length fasta {} (Nat.le_refl _)]
-  cases stepAll {} (lines fasta) <;> rfl
-
-end Hts.Lemmas.FaiScan
+end Hts.Lemmas.Fai
